@@ -154,6 +154,12 @@ def run(chk: Check, tier: str, seed: int) -> None:
         chk.nontrivial.add((untext(rec["texts"][0]), json.dumps(rec["narrow"])))
         for sig, case, what in res:
             chk.violation(sig, case, what)
+    # ---- the parser model on every token sequence up to a bound: total, and no ill-formed tree accepted (MC_Parser.tla)
+    n = 3 if tier == "quick" else 5
+    r = tlc("MC_Parser", f"CONSTANTS MaxLen = {n}\nINIT Init\nNEXT Next\nINVARIANT Total\nINVARIANT NoIllFormedTreeAccepted\n" + ("INVARIANT ExportAccepted\n" if n <= 4 else ""),
+            workers=16, timeout=3000)
+    chk.add_tlc(r)
+    chk.extra["parser_model_on_all_token_sequences"] = {"free_tokens_up_to": n, "sequences": r.distinct, "accepted": sum(1 for ln in r.log.splitlines() if '"accepted"' in ln) if n <= 4 else "not counted"}
     # ---- the same verdicts through the implementation-shaped parser model: code = Parser.tla = Typing.tla, and the
     # ---- parser model against the code on lexeme soups (accept / refuse, error class and tree for every token sequence)
     from .. import parsecheck
